@@ -134,6 +134,7 @@ def c17_execute(trace, tier, res, gen=False):
     res["trace"] = trace
     res["ops"] = res["steps"] = 0
     sims = []
+    episodes = [] if gen else (trace.get("episodes") or [])
     try:
         cfg = reader.from_yaml_text(text, name="doc")
         path = configs.write_doc(text, "c17")
@@ -157,9 +158,6 @@ def c17_execute(trace, tier, res, gen=False):
             counters.hit("probe.host_deny_lists")
         c17_fields(scen, cfg)
         # episodes on nasim.load(path) with the model built from the file
-        episodes = trace.get("episodes")
-        if gen:
-            episodes = []
         n_ep = 2 if gen else len(episodes)
         for ep in range(n_ep):
             rng = core.stream(seed, f"ep{ep}")
